@@ -79,8 +79,12 @@ def build(scratch_root=None, models=None, shared_prelude=True):
     t = _strip_section(t, r"^\[lints\]")
     t = _strip_section(t, r"^\[\[bench\]\]")
     t = _strip_section(t, r"^\[dev-dependencies\]")
-    if "[features]" in t and "mla_verif" not in t:
-        pass
+    # fallback build of the harness modules without the harnesses that name private functions
+    # (see bin/check: a change of such a function's signature otherwise stops every harness)
+    if re.search(r"^\[features\]", t, re.M):
+        t = re.sub(r"^\[features\]\n", "[features]\nverif_api_only = []\n", t, count=1, flags=re.M)
+    else:
+        t += "\n[features]\nverif_api_only = []\n"
     t += "\n[workspace]\n" + patch
     open(p, "w").write(t)
     shutil.copy(lock, os.path.join(ov, "mla", "Cargo.lock"))
